@@ -1,4 +1,5 @@
 import Adlt.Convert.Proofs
+import Adlt.Convert.Order
 /-! # C14 — convert selects exactly what its options say
 
 Model: `Cvt.convert` = input ordering (`Cvt.inputSeq`) followed by the pipeline lifecycle detection (`Lcm.run`) ->
@@ -48,6 +49,20 @@ theorem C14_each_once (re : Re) (o : Opts) (files : List File) (sorter : List PM
       ((stageLc (inputSeq files)).map (·.index)) := (List.filter_sublist).map _
   rw [(C14_input_numbered files).2] at hsub
   exact hsub.nodup List.nodup_range
+
+/-! ## the order of the file arguments (partial: the two sorting steps; the grouping by ECU set is not covered) -/
+
+/-- within one ECU set the files are read in the order of their first reception times, however they were named, when
+    those times differ -/
+theorem C14_files_of_a_group_order_free_partial (l l' : List File) (hp : l.Perm l')
+    (hd : ∀ a ∈ l, ∀ b ∈ l, a.firstRecv = b.firstRecv → a = b) : sortByTime l = sortByTime l' :=
+  sortByTime_perm_invariant l l' hp hd
+
+/-- the streams of the ECU sets are merged with the same ranks (hence the same result, `merge` being a function of the ranked
+    list) however they were passed, when their first reception times differ -/
+theorem C14_streams_order_free_partial (ss ss' : List (List FMsg)) (hp : ss.Perm ss')
+    (hd : ∀ a ∈ ss, ∀ b ∈ ss, headRecv a = headRecv b → a = b) : merge (rankStreams ss) = merge (rankStreams ss') := by
+  rw [rankStreams_perm_invariant ss ss' hp hd]
 
 /-- non-vacuity: a two-message input, window [1,1] -/
 example : (convert id (fun _ _ => true) { first := 1, last := some 1 }
